@@ -13,6 +13,7 @@ import (
 	"fmt"
 	"math/rand"
 	"os"
+	"sort"
 	"strconv"
 	"strings"
 )
@@ -69,7 +70,14 @@ func emit(out *bufio.Writer, mon *bufio.Writer, id string, s SchedCfg, c *Cluste
 	for k := range c.tainted {
 		taints = append(taints, k)
 	}
-	fmt.Fprintf(mon, "E %s ops=%d calls=%d family=%s nodes=%d tainted=%s\n", id, c.ops, c.seq, s.Family, len(c.ids), strings.Join(taints, ","))
+	fmt.Fprintf(mon, "E %s ops=%d calls=%d family=%s nodes=%d tainted=%s heal=%d/%d/%d\n", id, c.ops, c.seq, s.Family, len(c.ids), strings.Join(taints, ","),
+		c.mon.healRuns, c.mon.healed, c.mon.healRounds)
+	var acts []string
+	for k, v := range c.mon.act {
+		acts = append(acts, fmt.Sprintf("%s=%d", k, v))
+	}
+	sort.Strings(acts)
+	fmt.Fprintf(mon, "A %s %s\n", id, strings.Join(acts, " "))
 }
 
 func main() {
